@@ -69,9 +69,49 @@ def _self_attr(node):
     return isinstance(node, ast.Attribute) and isinstance(node.value, ast.Name) and node.value.id == 'self'
 
 
+def _root_self_attr(node):
+    """`self.a.b`, `self.a[k]`, `self.a.b[k].c` ... -> ('a', 'a.b' / 'a[]' ...) if rooted at self.<a>, else None"""
+    path = []
+    while True:
+        if isinstance(node, ast.Attribute):
+            if isinstance(node.value, ast.Name) and node.value.id == 'self':
+                return node.attr, node.attr + ''.join(reversed(path))
+            path.append('.' + node.attr)
+            node = node.value
+        elif isinstance(node, ast.Subscript):
+            path.append('[]')
+            node = node.value
+        else:
+            return None
+
+
+MUTATORS = {'append', 'extend', 'insert', 'pop', 'remove', 'clear', 'update', 'setdefault', 'add', 'discard',
+            'popitem', 'sort', 'reverse', '__setitem__', '__setattr__', '__delitem__'}
+
+
 def _scan(fn: ast.FunctionDef, method_names: set):
     writes, reads = [], []
     for n in ast.walk(fn):
+        if isinstance(n, (ast.Global, ast.Nonlocal)):
+            raise Untranslatable(f'{fn.name}: global / nonlocal state')
+        # stores through the builder's attributes: self.a.b = ..., self.a[k] = ..., del self.a[k]
+        if isinstance(n, (ast.Attribute, ast.Subscript)) and isinstance(n.ctx, (ast.Store, ast.Del)) and not _self_attr(n):
+            r = _root_self_attr(n)
+            if r is not None:
+                writes.append(r[1])
+        # in-place mutation through a method call: self.a.append(...), self.__dict__.setdefault(...)
+        if isinstance(n, ast.Call) and isinstance(n.func, ast.Attribute) and n.func.attr in MUTATORS:
+            r = _root_self_attr(n.func.value)
+            if r is not None:
+                writes.append(r[1] + '.' + n.func.attr + '()')
+            elif isinstance(n.func.value, ast.Name) and n.func.value.id == 'self' and n.func.attr in ('__setattr__', '__delitem__'):
+                writes.append('self.' + n.func.attr + '()')
+        if isinstance(n, ast.Call) and isinstance(n.func, ast.Name) and n.func.id in ('setattr', 'delattr') \
+                and n.args and isinstance(n.args[0], ast.Name) and n.args[0].id == 'self':
+            writes.append(n.func.id + '(self)')
+        if isinstance(n, ast.Call) and isinstance(n.func, ast.Name) and n.func.id == 'vars' \
+                and n.args and isinstance(n.args[0], ast.Name) and n.args[0].id == 'self':
+            reads.append('__dict__')
         if _self_attr(n):
             if isinstance(n.ctx, (ast.Store, ast.Del)):
                 writes.append(n.attr)
@@ -91,6 +131,43 @@ def _uniq(xs):
     return out
 
 
+ALLOWED_DECORATORS = {'abstractmethod', 'property', 'staticmethod', 'classmethod', 'dataclass'}
+
+
+def _no_module_state(mod: ast.Module, where: str, classes):
+    """No module-level or class-level mutable state next to the builder classes: flights on different builder
+    objects must not be able to talk to each other."""
+    for st in mod.body:
+        if isinstance(st, (ast.Import, ast.ImportFrom, ast.ClassDef, ast.FunctionDef)):
+            continue
+        if isinstance(st, ast.Expr) and isinstance(st.value, ast.Constant):
+            continue
+        if isinstance(st, ast.Assign) and len(st.targets) == 1 and isinstance(st.targets[0], ast.Name) \
+                and st.targets[0].id == '__all__':
+            continue
+        raise Untranslatable(f'{where}: module-level statement {ast.unparse(st)[:60]!r} (module state)')
+    for cls in classes:
+        for st in cls.body:
+            if isinstance(st, ast.FunctionDef):
+                for d in st.decorator_list:
+                    name = d.id if isinstance(d, ast.Name) else d.attr if isinstance(d, ast.Attribute) else ast.unparse(d)
+                    if name not in ALLOWED_DECORATORS:
+                        raise Untranslatable(f'{where}: decorator @{ast.unparse(d)} on {cls.name}.{st.name}')
+                for a in st.args.defaults + [d for d in st.args.kw_defaults if d is not None]:
+                    if isinstance(a, (ast.List, ast.Dict, ast.Set, ast.ListComp, ast.DictComp)):
+                        raise Untranslatable(f'{where}: mutable default argument in {cls.name}.{st.name}')
+            elif isinstance(st, ast.Expr) and isinstance(st.value, ast.Constant):
+                continue
+            elif isinstance(st, ast.AnnAssign) and isinstance(st.target, ast.Name):
+                if cls.name not in ('Context', 'Options', 'LegacyOptions') and st.target.id != 'CONTEXT_CLASS':
+                    raise Untranslatable(f'{where}: class attribute {cls.name}.{st.target.id}')
+            elif isinstance(st, ast.Assign) and len(st.targets) == 1 and isinstance(st.targets[0], ast.Name) \
+                    and st.targets[0].id == 'CONTEXT_CLASS':
+                continue
+            else:
+                raise Untranslatable(f'{where}: class-level statement in {cls.name}: {ast.unparse(st)[:60]!r}')
+
+
 def facts(repo: Path) -> dict:
     base = ast.parse((Path(repo) / 'src/AEIC/trajectories/builders/base.py').read_text())
     legacy = ast.parse((Path(repo) / 'src/AEIC/trajectories/builders/legacy.py').read_text())
@@ -99,6 +176,8 @@ def facts(repo: Path) -> dict:
     if [ast.unparse(b) for b in lbuilder.bases] != ['Builder'] or [ast.unparse(b) for b in lcontext.bases] != ['Context']:
         raise Untranslatable('legacy.py: class hierarchy changed')
 
+    _no_module_state(base, 'builders/base.py', [builder, context, _cls(base, 'Options')])
+    _no_module_state(legacy, 'builders/legacy.py', [lbuilder, lcontext, _cls(legacy, 'LegacyOptions')])
     _same_function(find_function(base, '__getattr__', cls='Builder'), GETATTR_SRC, 'Builder.__getattr__')
     _same_function(find_function(base, '__setattr__', cls='Builder'), SETATTR_SRC, 'Builder.__setattr__')
     if any(m.name in ('__getattr__', '__setattr__', '__getattribute__', '__delattr__', 'fly') for m in _methods(lbuilder)):
@@ -142,8 +221,21 @@ def facts(repo: Path) -> dict:
         guarded = True
     else:
         raise Untranslatable('Builder.fly: unrecognised finally clause: ' + ' '.join(ast.unparse(s) for s in fin)[:120])
+    # a starting mass handed in by the caller: is the fuel load still derived?
+    sm_ifs = [s2 for s2 in tr.body if isinstance(s2, ast.If) and ast.unparse(s2.test) == 'self.starting_mass is None']
+    want_then = ast.dump(ast.parse('self.starting_mass = self.calc_starting_mass()').body[0])
+    if len(sm_ifs) != 1 or len(sm_ifs[0].body) != 1 or ast.dump(sm_ifs[0].body[0]) != want_then:
+        raise Untranslatable('Builder.fly: `if self.starting_mass is None: self.starting_mass = self.calc_starting_mass()` not found')
+    orelse = sm_ifs[0].orelse
+    if not orelse:
+        given_fix = False
+    elif len(orelse) == 1 and ast.dump(orelse[0]) == ast.dump(ast.parse('self.calc_starting_mass()').body[0]):
+        given_fix = True
+    else:
+        raise Untranslatable('Builder.fly: unrecognised handling of a given starting mass: ' + ast.unparse(orelse[0])[:80])
     return {'ctx_fields': _uniq(ctx_fields), 'init_writes': _uniq(init_writes),
-            'flight_writes': _uniq(flight_writes), 'reads': _uniq(reads), 'guarded': guarded}
+            'flight_writes': _uniq(flight_writes), 'reads': _uniq(reads), 'guarded': guarded,
+            'given_fix': given_fix}
 
 
 def extract(repo: Path) -> str:
@@ -158,7 +250,8 @@ def extract(repo: Path) -> str:
             f'Definition g_init_writes : list string := {lst(f["init_writes"])}.\n'
             f'Definition g_flight_writes : list string := {lst(f["flight_writes"])}.\n'
             f'Definition g_reads : list string := {lst(f["reads"])}.\n'
-            f'Definition g_finally_guarded : bool := {"true" if f["guarded"] else "false"}.\n')
+            f'Definition g_finally_guarded : bool := {"true" if f["guarded"] else "false"}.\n'
+            f'Definition g_given_mass_fuel_derived : bool := {"true" if f["given_fix"] else "false"}.\n')
 
 
 if __name__ == '__main__':
